@@ -7,6 +7,7 @@ import re
 
 from ..cfg import cfg_of
 from ..core import AnalysisError, call_name, unparse, walk_no_nested
+from ..pattern import _parse, body_is, find, find_expr, has, has_expr, m_node
 from ..report import Ctx
 
 SA = 'sampling_of_alternatives.sampling_of_alternatives'
@@ -28,6 +29,9 @@ def run(ctx: Ctx) -> None:
     ctx.not_decided += ['equality with the full model under full sampling (engine)']
     S = prog.cls(SA, 'SamplingOfAlternatives')
     f = S.methods['sample_alternatives']
+    chb = find(f.node, '_CH = self.alternatives[self.alternatives[self.id_column] == chosen].copy()') or find(f.node, '_CH = self.alternatives[self.alternatives[self.id_column] == chosen]')
+    ctx.need(chb is not None, 'sample_alternatives selects the row of the chosen alternative')
+    CH = chb['_CH']
     loops = [n for n in f.body if isinstance(n, ast.For) and unparse(n.iter) == 'self.partition']
     ctx.need(len(loops) == 1, 'sample_alternatives loops over the strata')
     lp = loops[0]
@@ -52,12 +56,12 @@ def run(ctx: Ctx) -> None:
         bt = [unparse(s) for s in ci.body]
         det = ' ; '.join(bt)
         subset_copy = next((k for k, s in asg.items() if 'deepcopy' in unparse(s.value) or unparse(s.value) in (f'set({st}.subset)', f'{st}.subset.copy()')), None)
-        ok = subset_copy is not None and f'{subset_copy}.discard(chosen)' in bt and f'{kname} -= 1' in bt and f'chosen_alternative[LOG_PROBA_COL] = {lpv}' in bt
+        ok = subset_copy is not None and f'{subset_copy}.discard(chosen)' in bt and f'{kname} -= 1' in bt and f'{CH}[LOG_PROBA_COL] = {lpv}' in bt
         ok = ok and ci.lineno > lpdef.lineno
     ctx.add('C19.R1', 'sample_alternatives:chosen', ok, (f.file, chosen_if[0].lineno if chosen_if else lp.lineno),
             'inside its own stratum the chosen alternative is set aside, one draw less is requested and it receives the correction of that stratum, computed before the decrement' if ok
             else f'handling of the chosen alternative: {det or "no `if chosen in stratum.subset` in the stratum loop"}', det)
-    writes = [n for n in ast.walk(f.node) if isinstance(n, ast.Assign) and unparse(n.targets[0]) == 'chosen_alternative[LOG_PROBA_COL]']
+    writes = [n for n in ast.walk(f.node) if isinstance(n, ast.Assign) and unparse(n.targets[0]) == f'{CH}[LOG_PROBA_COL]']
     ok = len(writes) == 1 and bool(chosen_if) and writes[0] in chosen_if[0].body
     ctx.add('C19.R1', 'sample_alternatives:chosen-correction-site', ok, (f.file, writes[0].lineno if writes else f.line), 'the correction of the chosen alternative is assigned where its stratum is known' if ok else 'the correction of the chosen alternative is assigned outside its stratum (stale value of another stratum)', 'site')
     smp = [n for n in ast.walk(lp) if isinstance(n, ast.Call) and call_name(n) == 'sample']
@@ -71,37 +75,108 @@ def run(ctx: Ctx) -> None:
             ids = re.fullmatch(r'self\.alternatives\[self\.alternatives\[self\.id_column\]\.isin\((\w+)\)\]', unparse(sdef.value)).group(1)
             ok = ids in asg and sdef.lineno > chosen_if[0].lineno and smp[0].lineno > chosen_if[0].lineno
     ctx.add('C19.R1', 'sample_alternatives:draw', ok, (f.file, smp[0].lineno if smp else lp.lineno), 'k (or k-1) alternatives are drawn without replacement among the ids of the stratum, after the chosen one was set aside' if ok else 'the draw inside a stratum changed', 'draw')
-    sw = [s for s in body if isinstance(s, ast.Assign) and unparse(s.targets[0]).endswith('[LOG_PROBA_COL]') and unparse(s.targets[0]) != 'chosen_alternative[LOG_PROBA_COL]']
+    sw = [s for s in body if isinstance(s, ast.Assign) and unparse(s.targets[0]).endswith('[LOG_PROBA_COL]') and unparse(s.targets[0]) != f'{CH}[LOG_PROBA_COL]']
     ok = len(sw) == 1 and unparse(sw[0].value) == lpv
     ctx.add('C19.R1', 'sample_alternatives:sample-correction', ok, (f.file, sw[0].lineno if sw else lp.lineno), 'the sampled alternatives of the stratum carry the same correction' if ok else 'correction of the sampled alternatives changed', 'sample')
-    t = unparse(f.node)
-    ok = 'the_sample = pd.concat([chosen_alternative, the_sample], ignore_index=True)' in t and 'the_sample = pd.concat(results, ignore_index=True)' in t
+    ok = has(f.node, f"""
+_RES = []
+for _ST in self.partition:
+    ___
+    _RES.append(_S)
+_ALL = pd.concat(_RES, ignore_index=True)
+_ALL = pd.concat([{CH}, _ALL], ignore_index=True)
+return _ALL
+""") or has(f.node, f"""
+_RES = []
+for _ST in self.partition:
+    ___
+    _RES.append(_S)
+_OTHERS = pd.concat(_RES, ignore_index=True)
+_ALL = pd.concat([{CH}, _OTHERS], ignore_index=True)
+return _ALL
+""")
+    if ok:
+        # what is appended is the sample of the stratum
+        app = [c for c in ast.walk(lp) if isinstance(c, ast.Call) and call_name(c) == 'append']
+        ok = len(app) == 1 and len(smp) == 1 and any(isinstance(a, ast.Assign) and a.value is smp[0] and unparse(a.targets[0]) == unparse(app[0].args[0]) for a in body)
     ctx.add('C19.R1', 'sample_alternatives:order', ok, f, 'the chosen alternative is the first row' if ok else 'the chosen alternative is no longer first', 'order')
-    ok = 'if len(chosen_alternative) < 1:' in t and 'if len(chosen_alternative) > 1:' in t and t.count('raise BiogemeError(error_msg)') >= 2
+    ok = has(f.node, f"""
+if len({CH}) < 1:
+    ___
+    raise BiogemeError(__M1)
+if len({CH}) > 1:
+    ___
+    raise BiogemeError(__M2)
+""") or has(f.node, f"""
+if len({CH}) != 1:
+    ___
+    raise BiogemeError(__M1)
+""")
     ctx.add('C19.R1', 'sample_alternatives:unique-chosen', ok, f, 'an unknown or duplicated chosen id is refused' if ok else 'validation of the chosen id changed', 'unique')
     g = S.methods['sample_mev_alternatives']
-    t = unparse(g.node)
-    ok = 'for stratum in self.second_partition:' in t and 'stratum_size = len(stratum.subset)' in t and 'sample_size = stratum.sample_size' in t and 'mev_weight = stratum_size / sample_size' in t
-    ok = ok and 'subset = self.alternatives[self.alternatives[self.id_column].isin(stratum.subset)]' in t and "sample = subset.sample(n=sample_size, replace=False, axis='index', ignore_index=True)" in t and 'sample[MEV_WEIGHT] = mev_weight' in t
+    ok = has(g.node, """
+_RES = []
+for _ST in self.second_partition:
+    _N = len(_ST.subset)
+    _K = _ST.sample_size
+    _W = _N / _K
+    _ROWS = self.alternatives[self.alternatives[self.id_column].isin(_ST.subset)]
+    _S = _ROWS.sample(n=_K, replace=False, axis='index', ignore_index=True)
+    _S[MEV_WEIGHT] = _W
+    _RES.append(_S)
+_ALL = pd.concat(_RES, ignore_index=True)
+""")
     ctx.add('C19.R1', 'sample_mev_alternatives', ok, g, 'second sample: k per stratum without replacement, weight n/k' if ok else 'the second sample no longer follows the protocol', 'mev')
 
     # ---- R2 / R3
     G = prog.cls(CS, 'ChoiceSetsGeneration')
     pr = G.methods['process_row']
-    t = unparse(pr.node)
-    ok = "f'{col_name}_{row}': value for (row, col_name), value in flattened_first_series.items()" in t and "f'{MEV_PREFIX}{col_name}_{row}': value for (row, col_name), value in flattened_second_series.items()" in t
-    ok = ok and 'first_sample = self.sampling_of_alternatives.sample_alternatives(chosen=choice)' in t and 'choice = individual_row[self.choice_column]' in t
+    b = body_is(pr.body, """
+_CHOICE = individual_row[self.choice_column]
+_FIRST = self.sampling_of_alternatives.sample_alternatives(chosen=_CHOICE)
+_FS = _FIRST.stack()
+_FD = __D1
+_ROW = individual_row.to_dict()
+_ROW.update(_FD)
+if self.second_partition is not None:
+    _SECOND = self.sampling_of_alternatives.sample_mev_alternatives()
+    _SS = _SECOND.stack()
+    _SD = __D2
+    _ROW.update(_SD)
+return _ROW
+""")
+    ok = b is not None and m_node(_parse(f"{{f'{{_C}}_{{_R}}': _V for (_R, _C), _V in {b['_FS']}.items()}}")[0].value, b['__D1'][1], {}) \
+        and m_node(_parse(f"{{f'{{MEV_PREFIX}}{{_C}}_{{_R}}': _V for (_R, _C), _V in {b['_SS']}.items()}}")[0].value, b['__D2'][1], {})
     ctx.add('C19.R2', 'process_row', ok, pr, 'columns are <column>_<row> for the main sample and _MEV_<column>_<row> for the second one; the sample is drawn for the choice of that individual' if ok else 'naming of the flattened columns changed', 'process_row')
     dv = G.methods['define_new_variables']
-    t = unparse(dv.node)
-    ok = "copy_expression.rename_elementary(attributes, suffix=f'_{index}')" in t and "database.define_variable(f'{new_variable.name}_{index}', copy_expression)" in t and 'for index in range(self.total_sample_size):' in t
-    ok = ok and "copy_expression.rename_elementary(attributes, prefix=MEV_PREFIX, suffix=f'_{index}')" in t and "database.define_variable(f'{MEV_PREFIX}{new_variable.name}_{index}', copy_expression)" in t and 'for index in range(self.second_sample_size):' in t
+    ok = has(dv.node, """
+for _NV in self.combined_variables:
+    for _I in range(self.total_sample_size):
+        _E = copy.deepcopy(_NV.formula)
+        _A = self.get_attributes_from_expression(_E)
+        _E.rename_elementary(_A, suffix=f'_{_I}')
+        database.define_variable(f'{_NV.name}_{_I}', _E)
+        ___
+    if self.second_partition is not None:
+        for _J in range(self.second_sample_size):
+            _E2 = copy.deepcopy(_NV.formula)
+            _A2 = self.get_attributes_from_expression(_E2)
+            _E2.rename_elementary(_A2, prefix=MEV_PREFIX, suffix=f'_{_J}')
+            database.define_variable(f'{MEV_PREFIX}{_NV.name}_{_J}', _E2)
+""".replace('_E2', '_E').replace('_A2', '_A').replace('_J', '_I'))
     ctx.add('C19.R2', 'define_new_variables', ok, dv, 'combined variable j of alternative i reads the attributes with suffix _i (MEV prefix for the second sample) and is stored under the same scheme' if ok else 'naming of the combined variables changed', 'define')
     M = prog.cls(GM, 'GenerateModel')
     init = M.methods['__init__']
-    t = unparse(init.node)
-    ok = "alt_id: self.generate_utility(prefix='', suffix=f'_{alt_id}') for alt_id in range(self.total_sample_size)" in t and "alt_id: self.generate_utility(prefix=self.mev_prefix, suffix=f'_{alt_id}') for alt_id in range(self.context.second_sample_size)" in t
-    ok = ok and 'alt_id: self.utilities[alt_id] for alt_id in range(1, self.total_sample_size)' in t
+    b = find(init.node, """
+self.utilities = __U
+if self.context.second_partition is None:
+    self.mev_utilities = __M1
+else:
+    self.mev_utilities = __M2
+""")
+    ok = b is not None and m_node(_parse("{_I: self.generate_utility(prefix='', suffix=f'_{_I}') for _I in range(self.total_sample_size)}")[0].value, b['__U'][1], {}) \
+        and m_node(_parse("{_I: self.utilities[_I] for _I in range(1, self.total_sample_size)}")[0].value, b['__M1'][1], {}) \
+        and m_node(_parse("{_I: self.generate_utility(prefix=self.mev_prefix, suffix=f'_{_I}') for _I in range(self.context.second_sample_size)}")[0].value, b['__M2'][1], {})
     ctx.add('C19.R2', 'GenerateModel.__init__', ok, init, 'utility i reads the attributes with suffix _i; the second sample uses the MEV prefix; without second partition the MEV sample is the main sample minus the chosen alternative' if ok else 'construction of the sampled utilities changed', 'utilities')
     n3 = 0
     for name, fn in M.methods.items():
@@ -128,7 +203,15 @@ def run(ctx: Ctx) -> None:
                                 detail=f'{"main" if main else "mev"}:{txt}')
                         col = re.sub(r"^f['\"]|['\"]$", '', txt)
                         col = col.replace('{self.mev_prefix}', '')
-                        okc = re.fullmatch(r'(\{LOG_PROBA_COL\}|\{MEV_WEIGHT\}|\{CNL_PREFIX\}\{nest\.name\}|\{self\.context\.id_column\})_\{' + re.escape(idx) + r'\}', col) is not None
+                        okc = re.fullmatch(r'(\{LOG_PROBA_COL\}|\{MEV_WEIGHT\}|\{CNL_PREFIX\}\{(\w+)\.name\}|\{self\.context\.id_column\})_\{' + re.escape(idx) + r'\}', col)
+                        if okc is not None and okc.group(2):
+                            # the name is that of a nest: a loop variable over the nests
+                            nv = okc.group(2)
+                            okc = any(isinstance(l2, ast.For) and unparse(l2.target) == nv and unparse(l2.iter) in ('nests', 'self.context.cnl_nests') or
+                                      (isinstance(l2, ast.For) and unparse(l2.target) == nv and any(isinstance(a, ast.Assign) and unparse(a.targets[0]) == unparse(l2.iter) and unparse(a.value) == 'self.context.cnl_nests' for a in walk_no_nested(fn.node)))
+                                      for l2 in walk_no_nested(fn.node))
+                        else:
+                            okc = okc is not None
                         ctx.add('C19.R2', f'GenerateModel.{name}:{txt[:50]}', okc, (fn.file, v.lineno), f'{txt} follows the scheme <column>_<index> of the generated data' if okc else f'{txt} does not name a generated column', txt)
     if n3 < 8:
         raise AnalysisError(f'C19.R3: only {n3} column references found in GenerateModel')
@@ -138,13 +221,16 @@ def run(ctx: Ctx) -> None:
     ok = "self.mev_prefix = '' if self.second_partition is None else MEV_PREFIX" in t
     ctx.add('C19.R2', 'SamplingContext.mev_prefix', ok, pi, 'the MEV prefix is used iff there is a second partition' if ok else 'definition of mev_prefix changed', 'prefix')
     lg = M.methods['get_logit']
-    ok = "i: utility - Variable(f'{LOG_PROBA_COL}_{i}') for i, utility in self.utilities.items()" in unparse(lg.node) and 'return loglogit(corrected_utilities, None, 0)' in unparse(lg.node)
+    ok = body_is(lg.body, """
+_C = {_I: _U - Variable(f'{LOG_PROBA_COL}_{_I}') for _I, _U in self.utilities.items()}
+return loglogit(_C, None, 0)
+""") is not None
     ctx.add('C19.R2', 'GenerateModel.get_logit', ok, lg, 'utility i is corrected by the correction column of the same i; the chosen alternative is number 0' if ok else 'get_logit changed', 'logit')
 
     # ---- R4
-    ok = 'self.partition = [StratumTuple(subset=segment, sample_size=size) for segment, size in zip(self.the_partition, self.sample_sizes)]' in t
+    ok = has(pi.node, 'self.partition = [StratumTuple(subset=_S, sample_size=_K) for _S, _K in zip(self.the_partition, self.sample_sizes)]')
     ctx.add('C19.R4', 'SamplingContext:partition', ok, pi, 'main strata = zip(the_partition, sample_sizes)' if ok else 'main strata are no longer zip(the_partition, sample_sizes)', 'main')
-    ok = 'self.second_partition = [StratumTuple(subset=segment, sample_size=size) for segment, size in zip(self.mev_partition, self.mev_sample_sizes)]' in t
+    ok = has(pi.node, 'self.second_partition = [StratumTuple(subset=_S, sample_size=_K) for _S, _K in zip(self.mev_partition, self.mev_sample_sizes)]')
     ctx.add('C19.R4', 'SamplingContext:second_partition', ok, pi, 'second strata = zip(mev_partition, mev_sample_sizes)' if ok else 'second strata are not zip(mev_partition, mev_sample_sizes): the second sample uses other sizes than requested', 'second')
     cfg = cfg_of(pi.node)
     pdef = [n for n in walk_no_nested(pi.node) if isinstance(n, ast.Assign) and unparse(n.targets[0]) == 'self.partition']
@@ -152,10 +238,20 @@ def run(ctx: Ctx) -> None:
     ok = len(pdef) == 1 and len(chk) == 1 and cfg.dominates(cfg.node_of(pdef[0]), cfg.node_of(chk[0])) and cfg.must_pass(cfg.node_of(pdef[0]), {cfg.node_of(chk[0])})
     ctx.add('C19.R4', 'SamplingContext:check', ok, pi, 'the strata are validated on construction' if ok else 'check_partition is no longer run on construction', 'check')
     cp = Cx.methods['check_partition']
-    t2 = unparse(cp.node)
-    ok = 'for stratum in self.partition:' in t2 and 'n = len(stratum.subset)' in t2 and 'k = stratum.sample_size' in t2 and 'if n == 0:' in t2 and 'if k > n:' in t2 and 'if k == 0:' in t2 and 'if alt not in self.alternatives[self.id_column].values:' in t2 and t2.count('raise BiogemeError(error_msg)') == 4
+    RZ = "\n        ___\n        raise BiogemeError(__M{})"
+    ok = body_is(cp.body, """
+for _ST in self.partition:
+    _N = len(_ST.subset)
+    if _N == 0:""" + RZ.format(1) + """
+    _K = _ST.sample_size
+    if _K > _N:""" + RZ.format(2) + """
+    if _K == 0:""" + RZ.format(3) + """
+    for _A in _ST.subset:
+        if _A not in self.alternatives[self.id_column].values:""" + RZ.format(4).replace('\n        ', '\n            ') + """
+""") is not None
     ctx.add('C19.R4', 'SamplingContext.check_partition', ok, cp, 'empty stratum, k > n, k = 0 and unknown ids are refused' if ok else 'check_partition changed', 'rules')
-    ok = 'self.total_sample_size = sum((stratum.sample_size for stratum in self.partition))' in t and 'sum((stratum.sample_size for stratum in self.second_partition))' in t
+    ok = has(pi.node, 'self.total_sample_size = sum((_S.sample_size for _S in self.partition))') and \
+        has(pi.node, 'self.second_sample_size = None if self.second_partition is None else sum((_S.sample_size for _S in self.second_partition))')
     ctx.add('C19.R4', 'SamplingContext:sizes', ok, pi, 'total sizes are the sums of the requested stratum sizes' if ok else 'total sample sizes changed', 'sizes')
     st = prog.cls(SC, 'StratumTuple')
     ok = [x[0] for x in st.fields] == ['subset', 'sample_size']
@@ -170,8 +266,9 @@ _G = 'src/biogeme/sampling_of_alternatives/generate_model.py'
 _C = 'src/biogeme/sampling_of_alternatives/sampling_context.py'
 MUTANTS = [
     dict(name='correction computed after the decrement', rule='C19.R1', file=_S,
-         old='            logproba = np.log(sample_size) - np.log(stratum_size)\n            if chosen in stratum.subset:\n                # If the chosen alternative is in the stratum, we need to sample one less alternative\n                the_subset_of_alternatives.discard(chosen)\n',
-         new='            if chosen in stratum.subset:\n                the_subset_of_alternatives.discard(chosen)\n'),
+         edits=[(_S, '            logproba = np.log(sample_size) - np.log(stratum_size)\n            if chosen in stratum.subset:\n', '            if chosen in stratum.subset:\n'),
+                (_S, '                sample_size -= 1\n', '                sample_size -= 1\n                logproba = np.log(sample_size) - np.log(stratum_size)\n'),
+                (_S, '            # subset is a pandas data frame containing the description\n', '            logproba = np.log(sample_size) - np.log(stratum_size)\n            # subset is a pandas data frame containing the description\n')]),
     dict(name='chosen correction assigned after the loop (seed C19/2)', rule='C19.R1', file=_S,
          old='                chosen_alternative[LOG_PROBA_COL] = logproba\n', new=''),
     dict(name='sampling with replacement', rule='C19.R1', file=_S, old="                n=sample_size, replace=False, axis=\"index\", ignore_index=True\n            )\n\n            sample[LOG_PROBA_COL]", new="                n=sample_size, replace=True, axis=\"index\", ignore_index=True\n            )\n\n            sample[LOG_PROBA_COL]"),
